@@ -519,6 +519,9 @@ impl Run {
         let model: Vec<String> = replies.into_iter().flatten().collect();
         self.rep.evaluations += self.reqs.len() as u64;
         for i in 0..self.reqs.len() {
+            if i % 977 == 13 && self.reqs[i].len() > 40 && self.rep.samples.len() < 8 {
+                self.rep.sample(json!({"request": self.reqs[i], "real": self.real[i], "model": model[i]}));
+            }
             if model[i] != self.real[i] {
                 let op = self.reqs[i].split(' ').nth(1).unwrap_or("?").to_string();
                 let c = self.kinds.entry(format!("disagree:{}", op)).or_insert(0);
